@@ -161,7 +161,9 @@ def OBLIGATIONS(tier):
     big = tier == 'thorough'
     t = 1800 if big else 170
     obs = []
-    for n in (1, 2, 3, 4, 5, 6, 7) if big else (1, 2, 3, 4, 5, 6):
+    # (7 characters: 20+ minutes for one obligation; thorough deepens the
+    # component-level harness instead)
+    for n in (1, 2, 3, 4, 5, 6):
         obs.append(Ob(f'escape[len={n}]', 'escape',
                       timeout=(3000 if n > 6 else t) if big else 400,
                       slice={'n': n}))
